@@ -40,6 +40,11 @@ def run(ctx, vlib):
     om = vlib.run_driver(model, cases)
     failing, diffs, classes = [], [], {}
     seen, nt = set(), 0
+    # the F32 class of every case, decided by the extracted class predicate of T_C17_capped_outside (truncated)
+    cls = A.class_of(vlib, model, cases)
+    for c in cls:
+        key = "F32 class (truncated): %s" % c
+        classes[key] = classes.get(key, 0) + 1
     for i, line in enumerate(cases):
         for key in classify(line, om[i]):
             classes[key] = classes.get(key, 0) + 1
@@ -48,15 +53,18 @@ def run(ctx, vlib):
             if not om[i].startswith("OK"):
                 nt += 1
         if oi[i] != om[i]:
-            verdict, why = A.judge_c17(line, oi[i])
-            rec = dict(driver="arch", case=line, implementation=oi[i], model=om[i], judge=verdict, why=why)
+            verdict, why = A.judge_c17(line, oi[i], {"IN": True, "OUT": False}.get(cls[i]))
+            if cls[i] == "IN":
+                why = "inside the F32 class (truncated) the implementation no longer answers as recorded; the property predicate says %s: %s" % (verdict, why)
+                verdict = "KNOWN-FINDING-CHANGED"
+            rec = dict(driver="arch", case=line, implementation=oi[i], model=om[i], judge=verdict, why=why, defect_class=cls[i])
             if verdict == "FAIL" and len(failing) < 20:
                 failing.append(rec)
             elif len(diffs) < 20:
                 diffs.append(rec)
     # MsgPack, JSON and XML through std::istream must report exactly what the memory load reports
     n_stream = A.stream_vs_memory(vlib, impl, cases, oi, om, failing)
-    known_lines, known_cases = A.known_findings("C17", vlib, impl)
+    known_lines, known_cases = A.known_findings("C17", vlib, impl, model)
     diffs += A.STALE_KNOWN
     failing = [f for f in failing if f["case"] not in known_cases]
     samples = [dict(case=cases[i], implementation=oi[i], model=om[i]) for i in range(0, min(len(cases), 4))]
